@@ -1,13 +1,13 @@
 // C03: run the real aspif reader on an arbitrary text.
 // Case: mode N len byte...      Observation: accepted line reports delivered-calls...
-// Every other case (reuse::primed, a hash of the case) reads the text with a reader OBJECT that has read an incremental text before.
+// Every other case (reuse::primed, a hash of the case) reads the text with a reader OBJECT that has read (or refused) a primer text before, see reuse.h.
 #include "common.h"
 #include "c01_read.h"
 #include <potassco/match_basic_types.h>
 int main() {
 	Case c; Obs o;
 	while (readCase(c)) {
-		const bool primed = reuse::primed(c);
+		const reuse::Primer* primed = reuse::primed(c) ? &reuse::aspifPrimer(c) : 0;
 		int mode = (int)c.next(); ll n = c.next();
 		if (n != Potassco::BufferedStream::BUF_SIZE) { o.add(-999); o.flush(); continue; }
 		size_t len = (size_t)c.next();
